@@ -154,6 +154,24 @@ def triage(run, rep, variant):
         run.findings.append(Finding(ob.name, variant, what, payload, confirmed, theory=ob.theory))
 
 
+def random_history(rng):
+    mx = rng.choice([0.1, 0.05, 0.3])
+    cs = rng.choice([0, 1])
+    t0 = round(rng.uniform(-1, 1), 2)
+    ticks = []
+    for _ in range(rng.randint(1, 4)):
+        t_out = round(rng.uniform(-1.5, 1.5), 3)
+        control = "u" if (cs or rng.random() < 0.5) else None
+        if rng.random() < 0.15 and cs:
+            control = None
+        if rng.random() < 0.2:
+            rs = None
+        else:
+            rs = [(round(rng.uniform(-1.5, 1.5), 3), rng.choice(["a", "b"]), rng.random() < 0.5) for _ in range(rng.randint(0, 3))]
+        ticks.append((t_out, control, rs))
+    return t0, mx, cs, ticks
+
+
 def native_sweep(run, n):
     rng = random.Random(run.seed + 11)
     fails = 0
@@ -193,8 +211,8 @@ def check(run):
         cxx_runtime.check_c11(run)
     except ImportError:
         run.notes.append("C++ side not built yet")
-    if run.tier == "thorough" or any(r.status != "ok" for r in run.reports) or run.undecided:
-        native_sweep(run, 600 if run.tier == "thorough" else 150)
+    escalate = any(r.status != "ok" for r in run.reports) or bool(run.undecided)
+    native_sweep(run, 600 if run.tier == "thorough" else (150 if escalate else 60))
 
 
 def replay_file(payload):
